@@ -1181,11 +1181,11 @@ func c01FloatMarking(c *Ctx) {
 		if fd == nil {
 			return
 		}
-		paths := c.serSX().Run(fd)
+		v := c.view(fd)
+		paths := v.flagNorm(c.serSX().Run(fd)) // a hand-written scan for the decimal point reads as strings.ContainsRune
 		for i, p := range paths {
 			paths[i] = mapPath(p, func(t Term) (Term, bool) { return c.normByteStrings(t), true })
 		}
-		v := c.view(fd)
 		n := 0
 		for i, p := range paths {
 			n++
